@@ -165,6 +165,14 @@ pub fn clear_column(path: &Path, column: ColId) -> Result<()> {
 		return Err(Error::Migration("Invalid column index".into()))
 	}
 
+	// Pending write-ahead logs may still hold writes to this column: replay and remove them
+	// first (as `reset_column` does), otherwise the next open replays them into the cleared
+	// column.
+	let mut options = Options::with_columns(path, meta.columns.len() as u8);
+	options.columns = meta.columns;
+	options.salt = Some(meta.salt);
+	drop(Db::open(&options)?);
+
 	crate::column::Column::drop_files(column, path.to_path_buf())?;
 
 	Ok(())
